@@ -20,6 +20,10 @@ TRUSTED = [
     "result-recording muggle_channel_write; every hook calls the real function",
     "libc: vsnprintf / snprintf / fwrite / gmtime_r are trusted; a call is modelled by the expansion of its "
     "format and arguments (no NUL byte inside), the model decides what is kept of it",
+    "interleaving models (Async.lean, SyncConc.lean): tied to the code through the functions they are built from "
+    "(writeAll / handlerWrite / mkMsg, compared on every op), by the driver executing the async model under the "
+    "harness's canonical schedule (gated writer) and the sync model single-threaded on every log op, and by "
+    "harness-judged runs with real threads; there is no step-level schedule replay under the tsan shim",
     "the channel is modelled by its specification (bounded FIFO, atomic enqueue/dequeue, capacity-2 usable "
     "slots): that muggle_channel_write/read refine it is property C01's theorem",
     "console handler: the three fwrite calls of a coloured line are modelled, the Windows console API is not",
